@@ -402,6 +402,9 @@ func (sc *Scope) binary(e *SExpr) Term {
 			if a.Sort.Kind == KReal {
 				return App(SReal, "/", a, b)
 			}
+			if sc.ex.vc.OpaqueDiv && a.Sort.Kind == KInt && b.K == nil {
+				return App(SInt, "dv", a, b)
+			}
 			return App(SInt, "div", a, b)
 		case "%":
 			if a.Sort.Kind == KInt {
